@@ -35,26 +35,27 @@ type verifPend struct {
 }
 
 type verifStep struct {
-	w             *verifWorld
-	before, after verifSnap
-	class         stun.MessageClass
-	method        stun.Method
-	userKind      int // 0 absent 1 correct 2 same length, arbitrary bytes 3 other length
-	username      string
-	keyKind       int // 0 absent 1 local pwd 2 remote pwd 3 other pwd
-	useCand       bool
-	nomKind       int // 0 absent 1 valid (4 bytes) 2 too short
-	nomValue      uint32
-	ctrl          int
-	id            [stun.TransactionIDSize]byte
-	src           netip.AddrPort
-	localIdx      int
-	controlling   bool
-	lite          bool
-	pend          []verifPend
-	prio          uint32
-	selBeforeIdx  int
-	nomBefore     *CandidatePair // controlling: the pair being nominated before the step (nil: none)
+	w               *verifWorld
+	before, after   verifSnap
+	class           stun.MessageClass
+	method          stun.Method
+	userKind        int // 0 absent 1 correct 2 same length, arbitrary bytes 3 other length
+	username        string
+	keyKind         int // 0 absent 1 local pwd 2 remote pwd 3 other pwd
+	useCand         bool
+	nomKind         int // 0 absent 1 valid (4 bytes) 2 too short
+	nomValue        uint32
+	ctrl            int
+	id              [stun.TransactionIDSize]byte
+	src             netip.AddrPort
+	localIdx        int
+	controlling     bool
+	lite            bool
+	pend            []verifPend
+	prio            uint32
+	selBeforeIdx    int
+	nomBefore       *CandidatePair // controlling: the pair being nominated before the step (nil: none)
+	confirmedBefore *uint32        // controlling: highest renomination value already confirmed (nil: none)
 }
 
 const verifExpectedUsername = verifLocalUfrag + ":" + verifRemoteUfrag
@@ -134,6 +135,9 @@ func verifInboundStep(cfg verifStepCfg) *verifStep {
 		p.nominateOnBindingSuccess = verifBool()
 		p.renominateOnBindingSuccess = verifBool()
 		verifAssume(verifImplies(p.renominateOnBindingSuccess, p.nominateOnBindingSuccess)) // Inv: a deferred renomination is a deferred nomination
+		if cfg.renomination {
+			p.deferredNominationValue = verifU32() & 0xFFFFFF // the value that deferred renomination carried
+		}
 	}
 	// priorities: symbolic through the override (candidates keep their real code path)
 	prio := func() uint32 {
@@ -166,6 +170,11 @@ func verifInboundStep(cfg verifStepCfg) *verifStep {
 			cs.nominatedPair = np
 			s.nomBefore = np
 		}
+	}
+	if cs, ok := a.selector.(*controllingSelector); ok && cfg.renomination && verifChoice(2) == 1 {
+		v := verifU32() & 0xFFFFFF
+		cs.confirmedNomination = &v // the highest renomination value whose response has been applied
+		s.confirmedBefore = &v
 	}
 	if cs, ok := a.selector.(*controlledSelector); ok && cfg.renomination && verifChoice(2) == 1 {
 		v := verifU32() & 0xFFFFFF
